@@ -78,7 +78,12 @@ fn get_4digit_str(a_str: &str, iteration: u16) -> Cow<'_, str> {
             if needed_str > len_str {
                 Cow::Owned(format!("{}{:0len$}", a_str, iteration, len = 4 - len_str))
             } else {
-                Cow::Owned(format!("{}{}", &a_str[0..needed_str], iteration))
+                // (get: a non-ascii name might not have a char boundary there)
+                Cow::Owned(format!(
+                    "{}{}",
+                    a_str.get(0..needed_str).unwrap_or(""),
+                    iteration
+                ))
             }
         }
     }
